@@ -419,3 +419,85 @@ fn oneshot_decode(ch: &mut Chooser, ctx: &mut Ctx, op_no: usize) {
         }
     }
 }
+
+/// R2 self-test: the admissible-error sets against hand-written call / expectation pairs taken from the
+/// crate's documented error tests (the expected error must be admissible; valid calls must have no
+/// admissible error; a few errors that would be untruthful must not be admissible).
+pub fn self_test() -> Result<(), String> {
+    use Error::*;
+    let e = |k, r, lens: &[usize], want: Option<Error>, never: Option<Error>| -> Result<(), String> {
+        let adm = encode_adm(k, r, lens);
+        match want {
+            Some(w) if !adm.contains(&w) => return Err(format!("R2 self-test: encode({k},{r},{lens:?}) must admit {w:?}, admits {adm:?}")),
+            None if !adm.is_empty() => return Err(format!("R2 self-test: encode({k},{r},{lens:?}) is valid but admits {adm:?}")),
+            _ => {}
+        }
+        if let Some(n) = never {
+            if adm.contains(&n) {
+                return Err(format!("R2 self-test: encode({k},{r},{lens:?}) must not admit {n:?}"));
+            }
+        }
+        Ok(())
+    };
+    e(2, 1, &[64, 128], Some(DifferentShardSize { shard_bytes: 64, got: 128 }), Some(DifferentShardSize { shard_bytes: 128, got: 64 }))?;
+    e(1, 1, &[0], Some(InvalidShardSize { shard_bytes: 0 }), None)?;
+    e(1, 1, &[], Some(TooFewOriginalShards { original_count: 1, original_received_count: 0 }), Some(TooManyOriginalShards { original_count: 1 }))?;
+    e(1, 1, &[64, 64], Some(TooManyOriginalShards { original_count: 1 }), Some(TooFewOriginalShards { original_count: 1, original_received_count: 2 }))?;
+    e(0, 1, &[], Some(UnsupportedShardCount { original_count: 0, recovery_count: 1 }), None)?;
+    e(1, 0, &[64], Some(UnsupportedShardCount { original_count: 1, recovery_count: 0 }), None)?;
+    e(3, 2, &[64, 64, 64], None, None)?;
+    e(3, 2, &[66, 66, 66], None, None)?;
+    e(3, 2, &[63, 63, 63], Some(InvalidShardSize { shard_bytes: 63 }), Some(DifferentShardSize { shard_bytes: 63, got: 63 }))?;
+
+    let d = |k, r, o: &[(usize, usize)], rc: &[(usize, usize)], want: Option<Error>, never: Option<Error>| -> Result<(), String> {
+        let adm = decode_adm(k, r, o, rc);
+        match want {
+            Some(w) if !adm.contains(&w) => return Err(format!("R2 self-test: decode({k},{r},{o:?},{rc:?}) must admit {w:?}, admits {adm:?}")),
+            None if !adm.is_empty() => return Err(format!("R2 self-test: decode({k},{r},{o:?},{rc:?}) is valid but admits {adm:?}")),
+            _ => {}
+        }
+        if let Some(n) = never {
+            if adm.contains(&n) {
+                return Err(format!("R2 self-test: decode({k},{r},{o:?},{rc:?}) must not admit {n:?}"));
+            }
+        }
+        Ok(())
+    };
+    d(1, 1, &[(0, 64)], &[], None, None)?;
+    d(2, 1, &[(0, 64), (1, 128)], &[(0, 64)], Some(DifferentShardSize { shard_bytes: 64, got: 128 }), None)?;
+    d(1, 2, &[(0, 64)], &[(0, 64), (1, 128)], Some(DifferentShardSize { shard_bytes: 64, got: 128 }), None)?;
+    d(1, 1, &[(0, 0)], &[(0, 64)], Some(DifferentShardSize { shard_bytes: 64, got: 0 }), Some(InvalidShardSize { shard_bytes: 64 }))?;
+    d(2, 1, &[(0, 64), (0, 64)], &[(0, 64)], Some(DuplicateOriginalShardIndex { index: 0 }), Some(DuplicateRecoveryShardIndex { index: 0 }))?;
+    d(1, 2, &[(0, 64)], &[(0, 64), (0, 64)], Some(DuplicateRecoveryShardIndex { index: 0 }), Some(DuplicateOriginalShardIndex { index: 0 }))?;
+    d(1, 1, &[(1, 64)], &[(0, 64)], Some(InvalidOriginalShardIndex { original_count: 1, index: 1 }), None)?;
+    d(1, 1, &[(0, 64)], &[(1, 64)], Some(InvalidRecoveryShardIndex { recovery_count: 1, index: 1 }), None)?;
+    d(1, 1, &[(0, 64)], &[(0, 0)], Some(InvalidShardSize { shard_bytes: 0 }), None)?;
+    d(1, 1, &[], &[], Some(NotEnoughShards { original_count: 1, original_received_count: 0, recovery_received_count: 0 }), None)?;
+    d(0, 1, &[], &[], Some(UnsupportedShardCount { original_count: 0, recovery_count: 1 }), None)?;
+    d(1, 0, &[], &[], Some(UnsupportedShardCount { original_count: 1, recovery_count: 0 }), None)?;
+    // the C10 cases: no recovery shards given and something wrong with the originals -> never Ok
+    d(2, 1, &[(0, 64), (0, 64)], &[], Some(DuplicateOriginalShardIndex { index: 0 }), None)?;
+    d(2, 1, &[(7, 64), (0, 64)], &[], Some(InvalidOriginalShardIndex { original_count: 2, index: 7 }), None)?;
+    d(2, 1, &[(0, 63), (1, 63)], &[], Some(InvalidShardSize { shard_bytes: 63 }), None)?;
+    d(3, 2, &[(0, 64), (2, 64)], &[(1, 64)], None, None)?;
+    d(3, 2, &[(0, 64)], &[(1, 64)], Some(NotEnoughShards { original_count: 3, original_received_count: 1, recovery_received_count: 1 }), Some(NotEnoughShards { original_count: 3, original_received_count: 0, recovery_received_count: 2 }))?;
+
+    // configuration calls
+    let c = |fam, k, r, b, want: &[Error]| -> Result<(), String> {
+        let adm = config_adm(fam, k, r, b);
+        if adm != want {
+            return Err(format!("R2 self-test: config_adm({fam:?},{k},{r},{b}) = {adm:?}, expected {want:?}"));
+        }
+        Ok(())
+    };
+    c(Family::Default, 3, 2, 64, &[])?;
+    c(Family::Default, 3, 2, 63, &[InvalidShardSize { shard_bytes: 63 }])?;
+    c(Family::Default, 3, 2, 0, &[InvalidShardSize { shard_bytes: 0 }])?;
+    c(Family::Default, 0, 2, 64, &[UnsupportedShardCount { original_count: 0, recovery_count: 2 }])?;
+    c(Family::High, 4096, 61440, 64, &[UnsupportedShardCount { original_count: 4096, recovery_count: 61440 }])?;
+    c(Family::Low, 4096, 61440, 64, &[])?;
+    c(Family::High, 61440, 4096, 2, &[])?;
+    c(Family::Low, 61440, 4096, 2, &[UnsupportedShardCount { original_count: 61440, recovery_count: 4096 }])?;
+    c(Family::Default, 65536, 1, 1, &[UnsupportedShardCount { original_count: 65536, recovery_count: 1 }, InvalidShardSize { shard_bytes: 1 }])?;
+    Ok(())
+}
